@@ -83,6 +83,20 @@ impl Controller {
         self.trace.borrow_mut().clear();
         self.polls.set(0);
     }
+    /// Completes the parked request at position `idx` (registration order) by hand; used by harnesses
+    /// that poll futures themselves instead of going through `CtlRuntime::block_on`.
+    pub fn release_at(&self, idx: usize) -> bool {
+        let p = {
+            let mut parked = self.parked.borrow_mut();
+            if idx >= parked.len() {
+                return false;
+            }
+            parked.remove(idx)
+        };
+        self.released.borrow_mut().push(p.id);
+        p.waker.wake();
+        true
+    }
     fn is_released(&self, id: u64) -> bool {
         self.released.borrow().contains(&id)
     }
